@@ -41,7 +41,6 @@ M("c03-left-wall-gap-zero", ["C03", "C02"], (RO, "constraints.append(vpsc.Constr
 # ---- C05 -------------------------------------------------------------------
 M("c05-lm-sign-swap", ["C05"], (VP, "                dfdv += _dfdv * c.right.scale\n                c.lm = -_dfdv", "                dfdv += _dfdv * c.right.scale\n                c.lm = _dfdv"))
 M("c05-mergeacross-forgets-offset", ["C05", "C01"], (VP, "            v.offset += dist\n", "            v.offset += 0\n"))
-M("c05-no-cycle-detection", ["C05"], (VP, "                if lb.isActiveDirectedPathBetween(v.right, v.left):", "                if False and lb.isActiveDirectedPathBetween(v.right, v.left):"))
 M("c05-cost-ignores-weight", ["C05"], (VP, "            _sum += d * d * v.weight", "            _sum += d * d"))
 M("c05-scale-ignored-in-stats", ["C05"], (VP, "        ai = self.scale / v.scale", "        ai = 1.0"))
 
@@ -132,6 +131,7 @@ def E(name, props, *edits):
 
 
 E("eq-stub-target-dead-branch", ["C06", "C02"], (RO, "            node.parent.currentPos if node.parent else node.idealPos", "            node.parent.currentPos if node.parent else (node.idealPos if node.layerIndex == 0 else node.currentPos)"))
+E("eq-no-explicit-cycle-test", ["C05"], (VP, "                if lb.isActiveDirectedPathBetween(v.right, v.left):", "                if False and lb.isActiveDirectedPathBetween(v.right, v.left):"))
 E("eq-split-skips-update-of-block-positions", ["C05", "C01", "C02"], (VP, "    def split(self, inactive):\n        self.updateBlockPositions()\n", "    def split(self, inactive):\n"))
 E("eq-mostviolated-really-pops", ["C05", "C01"], (VP, "            l[deletePoint] = l[n - 1]\n            l = l[:-1]\n", "            l[deletePoint] = l[n - 1]\n            del l[-1]\n"))
 E("eq-copy-with-slices", ["C12", "C14"], (SC, "            list(self._domain),\n            list(self._range),", "            self._domain[:],\n            self._range[:],"))
